@@ -366,7 +366,7 @@ impl Check for C10 {
     fn run_shard(&self, ctx: &Ctx, rec: &mut Rec) {
         let total = match ctx.tier {
             Tier::Quick => 10000,
-            Tier::Thorough => 50000,
+            Tier::Thorough => 200000,
         };
         prop_loop(ctx, rec, "gen", strategy(), ctx.share(total), judge);
     }
